@@ -297,6 +297,44 @@ func c16Run(c *mon.Ctx) {
 		c.Count(fmt.Sprintf("rounds_gomaxprocs_%d", procs))
 		c.CountN("receivers_hit_concurrently", int64(n))
 	}
+	// part C: concurrent construction - goroutines parse their own documents at
+	// the same time; every result must serialise exactly as when parsed alone
+	{
+		var texts, alone []string
+		r := c.SubRng("parse", 0)
+		for len(texts) < 48 {
+			do := gen.DefaultDocOpts()
+			do.MaxDepth, do.LongFirst = 1+r.Intn(3), false
+			t := gen.Render(r, gen.GenDoc(r, do, 0), false, false)
+			if o, err := geojson.Parse(t, nil); err == nil {
+				texts = append(texts, t)
+				alone = append(alone, o.JSON())
+			}
+		}
+		bad := make([][]string, G)
+		var wg sync.WaitGroup
+		for g := 0; g < G; g++ {
+			wg.Add(1)
+			go func(g int) {
+				defer wg.Done()
+				for k := 0; k < 400; k++ {
+					i := (g*7 + k) % len(texts)
+					o, err := geojson.Parse(texts[i], nil)
+					if err != nil || o.JSON() != alone[i] {
+						bad[g] = append(bad[g], texts[i])
+					}
+				}
+			}(g)
+		}
+		wg.Wait()
+		for g := range bad {
+			for _, t := range bad[g] {
+				c.Violation("nondeterministic Parse", "a document parsed while other goroutines were parsing decodes differently from the same document parsed alone", map[string]interface{}{"text": truncate(t, 600)})
+			}
+		}
+		c.CountN("concurrent_parses", int64(G*400))
+		opsDone += int64(G * 400)
+	}
 	c.CountN("concurrent_ops", opsDone)
 	c.CountN("goroutines_per_round", G)
 	c.EvalN(int(opsDone))
@@ -323,7 +361,7 @@ func init() {
 		Rule:        "a seeded pool recipe of ~56 objects of all 12 kinds (indexed and unindexed geometry, indexed children, parsed under option sets, 200-vertex shapes, a moved shape, circles) is instantiated once for a sequential baseline (every one of 21 operation groups on every (receiver, argument) pair) and once per round, never touched before the round; per round 32 goroutines released by a spin barrier first hit every object at the same moment (convoy, as receiver and as argument, so the first use of each object is contended) and then run seeded mixed operations on a few hot receivers (scatter); GOMAXPROCS alternates between 2 and 16; every concurrent result must equal the result of the same call run alone; the Go race detector watches the whole run. Non-trivial = distinct (operation group, receiver kind).",
 		Assumptions: []string{"the race detector only sees accesses the workload performs; every exported method of every kind is executed", "the sequential specification is a pure function of the operation, so linearizability degenerates to per-operation equality with the result obtained alone"},
 		Run:         c16Run,
-		MustSee:     []string{"rounds", "concurrent_ops", "baseline_results", "rounds_gomaxprocs_2", "rounds_gomaxprocs_16"},
+		MustSee:     []string{"concurrent_parses", "rounds", "concurrent_ops", "baseline_results", "rounds_gomaxprocs_2", "rounds_gomaxprocs_16"},
 		Race:        true,
 		Procs:       4,
 		HangSecs:    300,
